@@ -230,8 +230,8 @@ def random_cases(n, sd, nslow=0):
         if no_parent:
             route = "plain"
         inout = "no"
-        if (init.get("out") == "old" and route == "plain" and "/" not in stem and not no_parent and rng.random() < 0.4
-                and key in ("gc_full", "gc_coords_bld", "gp_min", "gp_p3ht", "gp_ps_json", "gp_ppi", "gp_bad_res", "gp_bad_seq")):
+        if (init.get("out") == "old" and route == "plain" and "/" not in stem and not no_parent and rng.random() < 0.7
+                and key in ("gc_full", "gc_coords_bld", "gp_min", "gp_p3ht", "gp_ps_json", "gp_bad_res", "gp_bad_seq")):     # inputs whose file has the output's format (.gro / .itp)
             inout, init["out"] = rng.choice(["same", "link", "dots"]), "inp"   # the run reads an input from the output path
         cases.append({"id": "t%04d" % i, "names": names, "nbk": TNBK, "init": init, "seed": sd, "instrument": True, "no_parent": no_parent,
                       "route": route, "inout": inout,
